@@ -496,9 +496,15 @@ def t3_frame(idm):
         f = bytes([c]) + i + b
         ln = (len(f) + 1) & 0xFF if lenfix else (len(f) + 2) & 0xFF
         return bytes([ln]) + f
+    # polling responses: PMm, then no / the two / other request data bytes
+    poll = st.tuples(st.just(0x01), idm_s, st.tuples(
+        st.sampled_from([bytes.fromhex("0120220427674EFF"), bytes(8)]),
+        st.sampled_from([b"", b"", b"\x12\xFC", b"\x00\x01", b"\x00",
+                         b"\x12\xFC\x00"])).map(lambda t: t[0] + t[1]),
+        st.just(True)).map(mk)
     return st.one_of(
         st.tuples(code, idm_s, body, st.sampled_from([True] * 5 + [False]))
-        .map(mk),
+        .map(mk), poll,
         st.binary(min_size=1, max_size=12))
 
 
